@@ -5,24 +5,36 @@
      request  :  il <arch> <function in FIL>      |   mc <arch> <hex bytes of a machine-code function at 0x1000>
      answer   :  (sp <name> <bits>) [<lifted function in FIL>] <result>        (the function only for `mc`)
                  | nolift <err|panic>                                           (the translator declined)
-     result   :  (ok (<loc> <T|B|isize>) ...) | err:<kind> | panic
-  output line :  <verdict> TAB premise=<yes|no> nt=<0|1> strict=<ok|loc>
+     result   :  (ok (<loc> <T|B|isize>) ...) [(x86d (<addr> <operand description>) ...)] | err:<kind> | panic
+                 (x86d: capstone's decoding of the bytes, x86/amd64 `mc` cases, for the x86 reference interpreter)
+  output line :  <verdict> TAB premise=<yes|no> nt=<0|1> strict=<ok|loc> isa=<-|cmp:..,top:..,und:..,noil:..,exit:..,fuel:..,stop:..>
      verdict  :  valid                                     the verified checker `spoCheck` accepts the map
               |  invalid <loc> [contradicted <loc> k=<isize> s0=<hex> sp=<hex>]
                                                             it does not; then a concrete run (initial stack pointer
                                                             `s0`, aligned and unaligned values are tried) after whose
                                                             location the stack pointer is not `s0 + k`, if one is found
+              |  [invalid …] isa-contradicted <loc> addr=<machine address> k=<isize> s0=<hex> sp=<hex>
+                                                            `mc` cases: the reference interpreter of the instruction set
+                                                            ran the bytes from architectural stack register = s0 and
+                                                            after the machine instruction at addr the ARCHITECTURAL stack
+                                                            pointer is not s0 + k, k reported at its last IL location
               |  incomplete <result>                        the analysis returned an error or panicked
               |  ?                                          outside the domain (no entry block, lift declined, a name
                                                             with two widths, SSA versions)
      premise  :  the entry block has no incoming edge (the premise of the completion clause)
      nt       :  the map reports at least two distinct numbers
+     isa      :  the architectural witness: boundaries compared / reported Top / location not determined, and how the
+                 six runs ended (left the code, fuel, outside the interpreter's domain or trap)
      strict   :  verdict of the checker in strict mode (an intrinsic that may write the stack pointer gives `top`);
                  informative only — no execution passes an intrinsic
 -/
 import FalconModel.DriverLoop
 import FalconModel.FilIL
 import FalconModel.SpoCert
+import FalconModel.Isa.Mips
+import FalconModel.Isa.Ppc
+import FalconModel.Isa.A64
+import FalconModel.Isa.X86
 
 open Falcon Falcon.SpoCert
 
@@ -173,6 +185,225 @@ def search (f : Function) (sp : String) (w : Nat) (rep : Loc → Option RVal) (n
     (List.range 32).findSome? (fun k =>
       explore f sp w rep (spInit w k) 300 [⟨e, 0, initState names sp w k⟩])
 
+
+-- ---------------------------------------------------------------- the ISA witness (unverified; `mc` cases only)
+/-
+  An oracle that does NOT take the name of the stack register from falcon: the reference interpreters of the
+  instruction sets (FalconModel/Isa/{Mips,Ppc,A64,X86}.lean, the specifications of C01–C03) run the SAME BYTES from
+  a state whose ARCHITECTURAL stack register (MIPS r29, PPC r1, A64 SP, x86 esp/rsp) holds `s0`.  After every machine
+  instruction (for MIPS: after a branch together with its delay slot) the architectural stack pointer is compared
+  with what falcon reports at the LAST IL location of that machine instruction: a number `k` there must satisfy
+  `sp = s0 + k (mod 2^w)`.  The comparison is made only where that location is determined: all IL instructions
+  carrying the machine instruction's address lie in one block, contiguously.  An instruction outside an
+  interpreter's domain, a trap or a fault ends the witness run; so does leaving the code (`ret`) and the fuel.
+-/
+
+def codeBase : Nat := 0x1000
+
+def witnessMem (k : Nat) : ByteMem := fun a => some (UInt8.ofNat ((a * 131 + k * 7 + 13) % 256))
+
+def wordAt (big : Bool) (code : Array UInt8) (pc : Nat) : Option (BitVec 32) :=
+  if pc < codeBase then none
+  else
+    let o := pc - codeBase
+    match code[o]?, code[o+1]?, code[o+2]?, code[o+3]? with
+    | some a, some b, some c, some d =>
+      let (b0, b1, b2, b3) := if big then (a, b, c, d) else (d, c, b, a)
+      some (BitVec.ofNat 32 (((b0.toNat * 256 + b1.toNat) * 256 + b2.toNat) * 256 + b3.toNat))
+    | _, _, _, _ => none
+
+/-- one boundary of a witness run: address of the machine instruction just completed, stack pointer after it -/
+abbrev Boundary := Nat × Nat
+
+structure Witness where
+  bounds : List Boundary
+  /-- `exit` (left the code: return), `fuel`, or `stop` (outside the interpreter's domain / trap / fault) -/
+  ended : String
+
+def mipsRun (code : Array UInt8) : Nat → Nat → Isa.Mips.St → List Boundary → Witness
+  | 0, _, _, acc => ⟨acc.reverse, "fuel"⟩
+  | fuel + 1, pc, s, acc =>
+    match wordAt s.bigEndian code pc with
+    | none => ⟨acc.reverse, "exit"⟩
+    | some w =>
+      match Isa.Mips.decode w with
+      | none => ⟨acc.reverse, "stop"⟩
+      | some i =>
+        if i.isBranch then
+          match wordAt s.bigEndian code (pc + 4) with
+          | none => ⟨acc.reverse, "stop"⟩
+          | some wd =>
+            match Isa.Mips.step2 w wd (BitVec.ofNat 32 pc) s with
+            | .next s' pc' _ => mipsRun code fuel pc'.toNat s' ((pc + 4, (s'.r 29).toNat) :: acc)
+            | _ => ⟨acc.reverse, "stop"⟩
+        else
+          match Isa.Mips.step w (BitVec.ofNat 32 pc) s with
+          | .next s' pc' _ => mipsRun code fuel pc'.toNat s' ((pc, (s'.r 29).toNat) :: acc)
+          | _ => ⟨acc.reverse, "stop"⟩
+
+def mipsInit (big : Bool) (s0 cond k : Nat) : Isa.Mips.St :=
+  { gpr := fun i =>
+      if i = 29 then BitVec.ofNat 32 s0
+      else if i = 4 then BitVec.ofNat 32 cond
+      else if i = 31 then 0
+      else BitVec.ofNat 32 (0x10000 * (i.toNat + 1) + 8 * k),
+    hi := 0, lo := 0, mem := witnessMem k, bigEndian := big }
+
+def ppcRun (code : Array UInt8) : Nat → Nat → Isa.Ppc.St → List Boundary → Witness
+  | 0, _, _, acc => ⟨acc.reverse, "fuel"⟩
+  | fuel + 1, pc, s, acc =>
+    match wordAt true code pc with
+    | none => ⟨acc.reverse, "exit"⟩
+    | some w =>
+      match Isa.Ppc.step w (BitVec.ofNat 32 pc) s with
+      | .next s' pc' => ppcRun code fuel pc'.toNat s' ((pc, (s'.gpr 1).toNat) :: acc)
+      | _ => ⟨acc.reverse, "stop"⟩
+
+def ppcInit (s0 cond k : Nat) : Isa.Ppc.St :=
+  { gpr := fun i =>
+      if i = 1 then BitVec.ofNat 32 s0
+      else if i = 3 then BitVec.ofNat 32 cond
+      else BitVec.ofNat 32 (0x10000 * (i.toNat + 1) + 8 * k),
+    lr := 0, ctr := 0, ca := false, so := false, cr := fun _ => false, mem := witnessMem k }
+
+def a64Run (code : Array UInt8) : Nat → A64.St → List Boundary → Witness
+  | 0, _, acc => ⟨acc.reverse, "fuel"⟩
+  | fuel + 1, s, acc =>
+    let pc := s.pc.toNat
+    match wordAt false code pc with        -- instruction fetch is little-endian in both configurations
+    | none => ⟨acc.reverse, "exit"⟩
+    | some w =>
+      match A64.step w s with
+      | .ok s' => a64Run code fuel s' ((pc, s'.sp.toNat) :: acc)
+      | _ => ⟨acc.reverse, "stop"⟩
+
+def a64Init (big : Bool) (s0 cond k : Nat) : A64.St :=
+  { x := fun i =>
+      if i = 0 then BitVec.ofNat 64 cond
+      else if i = 30 then 0
+      else BitVec.ofNat 64 (0x100000 * (i + 1) + 16 * k),
+    sp := BitVec.ofNat 64 s0, n := false, z := false, c := false, v := false, q := fun _ => 0,
+    mem := witnessMem k, big := big, pc := BitVec.ofNat 64 codeBase }
+
+def x86Run (mode : X86.Mode) (insns : List (Nat × X86.Ins)) : Nat → Nat → X86.St → List Boundary → Witness
+  | 0, _, _, acc => ⟨acc.reverse, "fuel"⟩
+  | fuel + 1, pc, σ, acc =>
+    match insns.lookup pc with
+    | none => ⟨acc.reverse, if insns.any (fun p => p.1 < pc + 16 && pc < p.1 + 16) then "stop" else "exit"⟩
+    | some i =>
+      match X86.step i σ with
+      | .ok σ' next undef =>
+        if undef.contains "rsp" then ⟨acc.reverse, "stop"⟩
+        else x86Run mode insns fuel next σ' ((pc, (σ'.gpr 4).toNat % 2 ^ mode.bits) :: acc)
+      | _ => ⟨acc.reverse, "stop"⟩
+
+def x86Init (s0 cond k : Nat) : X86.St :=
+  { gpr := fun i =>
+      if i = 4 then BitVec.ofNat 64 s0
+      else if i = 0 then BitVec.ofNat 64 cond
+      else BitVec.ofNat 64 (0x100000 * (i + 1) + 16 * k),
+    cf := false, pf := false, zf := false, sf := false, of := false, df := false,
+    xmm := fun _ => 0, seg := fun _ => 0, mem := witnessMem k }
+
+/-- `(x86d (<addr> <mnemonic> len=.. asz=.. pfx=.. <operand>*) ...)`: capstone's decoding, from the harness -/
+def parseX86d (mode : X86.Mode) : List Sx → Option (List (Nat × X86.Ins))
+  | [] => some []
+  | .list (a :: toks) :: xs => do
+      let addr ← a.nat?
+      let words ← toks.mapM Sx.atom?
+      let ins ← X86.parseIns mode addr (" ".intercalate words)
+      pure ((addr, ins) :: (← parseX86d mode xs))
+  | _ => none
+
+def hexBytes (s : String) : Option (Array UInt8) :=
+  let rec go : List Char → List UInt8 → Option (List UInt8)
+    | [], acc => some acc.reverse
+    | a :: b :: rest, acc => do
+        let x ← Sx.hexVal a
+        let y ← Sx.hexVal b
+        go rest (UInt8.ofNat (x * 16 + y) :: acc)
+    | _, _ => none
+  (go s.toList []).map List.toArray
+
+/-- the architectural witness run for one architecture name; `none` = no interpreter input for it -/
+def witnessRun (arch : String) (code : Array UInt8) (x86d : Option (List Sx)) (s0 cond k : Nat) : Option Witness :=
+  match arch with
+  | "mips" => some (mipsRun code 64 codeBase (mipsInit true s0 cond k) [])
+  | "mipsel" => some (mipsRun code 64 codeBase (mipsInit false s0 cond k) [])
+  | "ppc" => some (ppcRun code 64 codeBase (ppcInit s0 cond k) [])
+  | "aarch64" => some (a64Run code 64 (a64Init false s0 cond k) [])
+  | "aarch64eb" => some (a64Run code 64 (a64Init true s0 cond k) [])
+  | "x86" => do
+      let ins ← parseX86d .x86 (← x86d)
+      pure (x86Run .x86 ins 64 codeBase (x86Init s0 cond k) [])
+  | "amd64" => do
+      let ins ← parseX86d .amd64 (← x86d)
+      pure (x86Run .amd64 ins 64 codeBase (x86Init s0 cond k) [])
+  | _ => none
+
+/-- the last IL location of the machine instruction at `addr`, when it is determined: every IL instruction with
+    that address lies in ONE block, and they are contiguous there -/
+def lastLocOf (f : Function) (addr : Nat) : Option Loc :=
+  let hits := f.cfg.blocks.filterMap (fun bk =>
+    let idxs := (bk.instrs.zipIdx.filter (fun p => p.1.addr == some addr)).map (·.2)
+    if idxs.isEmpty then none else some (bk, idxs))
+  match hits with
+  | [(bk, idxs)] =>
+    match idxs.head?, idxs.getLast? with
+    | some a, some b =>
+      if b + 1 - a == idxs.length then (bk.instrs[b]?).map (fun i => Loc.instr bk.index i.index) else none
+    | _, _ => none
+  | _ => none
+
+structure IsaStats where
+  compared : Nat := 0      -- boundaries where falcon reports a number and it was compared
+  top : Nat := 0           -- boundaries where falcon reports Top / nothing
+  undetermined : Nat := 0  -- boundaries whose IL location is not determined (IL of the instruction in several blocks)
+  noil : Nat := 0          -- boundaries of machine instructions without any IL instruction (lifted to an empty block)
+  exit : Nat := 0
+  fuel : Nat := 0
+  stop : Nat := 0
+  contra : Option String := none
+
+def IsaStats.str (t : IsaStats) : String :=
+  s!"isa=cmp:{t.compared},top:{t.top},und:{t.undetermined},noil:{t.noil},exit:{t.exit},fuel:{t.fuel},stop:{t.stop}"
+
+def isaCompare (f : Function) (w : Nat) (rep : Loc → Option RVal) (s0 : Nat) (wt : Witness) (t : IsaStats) : IsaStats :=
+  let t := match wt.ended with
+    | "exit" => { t with exit := t.exit + 1 }
+    | "fuel" => { t with fuel := t.fuel + 1 }
+    | _ => { t with stop := t.stop + 1 }
+  wt.bounds.foldl (fun t (addr, sp) =>
+    match lastLocOf f addr with
+    | none =>
+      if f.cfg.blocks.any (fun bk => bk.instrs.any (fun i => i.addr == some addr)) then
+        { t with undetermined := t.undetermined + 1 }
+      else { t with noil := t.noil + 1 }
+    | some l =>
+      match rep l with
+      | some (.num i) =>
+        let t := { t with compared := t.compared + 1 }
+        if BitVec.ofNat w sp == BitVec.ofNat w s0 + ofReported w i then t
+        else if t.contra.isSome then t
+        else { t with contra := some s!"isa-contradicted {l.str} addr={hexS addr} k={i} s0={hexS s0} sp={hexS (sp % 2 ^ w)}" }
+      | some .bottom =>
+        if t.contra.isSome then t
+        else { t with contra := some s!"isa-contradicted {l.str} addr={hexS addr} k=bottom s0={hexS s0} sp={hexS (sp % 2 ^ w)}" }
+      | _ => { t with top := t.top + 1 }) t
+
+/-- runs from an aligned and an unaligned stack pointer, with the branch register zero and non-zero -/
+def isaWitness (arch : String) (code : Array UInt8) (x86d : Option (List Sx)) (f : Function) (w : Nat)
+    (rep : Loc → Option RVal) : Option IsaStats :=
+  let runs : List (Nat × Nat) := [(0, 0), (0, 1), (1, 0), (1, 1), (2, 0), (2, 1)]
+  runs.foldl (fun acc (k, cond) =>
+    match acc with
+    | none => none
+    | some t =>
+      let s0 := spInit w k
+      match witnessRun arch code x86d s0 cond k with
+      | none => none
+      | some wt => some (isaCompare f w rep s0 wt t)) (some {})
+
 -- ---------------------------------------------------------------- main
 
 def distinctNums (m : List (Loc × RVal)) : Nat :=
@@ -180,16 +411,26 @@ def distinctNums (m : List (Loc × RVal)) : Nat :=
     | .num i => if acc.contains i then acc else i :: acc
     | _ => acc) []).length
 
-def judge (f : Function) (sp : String) (w : Nat) (res : List Sx) : String :=
+/-- the width of the architectural stack register — NOT taken from falcon -/
+def archWidth (arch : String) : Nat :=
+  if arch = "amd64" || arch = "aarch64" || arch = "aarch64eb" then 64 else 32
+
+structure McInput where
+  arch : String
+  code : Array UInt8
+  x86d : Option (List Sx)
+
+def judge (f : Function) (sp : String) (w : Nat) (res : List Sx) (mc : Option McInput) : String :=
   let premise := match f.cfg.entry with
     | some e => if (f.cfg.edgesIn e).isEmpty then "yes" else "no"
     | none => "no"
   let scal := (sp, w) :: (fnScalars f).map (fun s => (s.name, s.bits))
-  if f.cfg.entry.isNone || !widthsOk scal || (fnScalars f).any (·.ssa.isSome) then s!"?\tpremise={premise} nt=0 strict=-"
+  if f.cfg.entry.isNone || !widthsOk scal || (fnScalars f).any (·.ssa.isSome) then
+    s!"?\tpremise={premise} nt=0 strict=- isa=-"
   else
     match res with
-    | [.atom a] => s!"incomplete {a}\tpremise={premise} nt=0 strict=-"
-    | [.list (.atom "ok" :: ms)] =>
+    | .atom a :: _ => s!"incomplete {a}\tpremise={premise} nt=0 strict=- isa=-"
+    | .list (.atom "ok" :: ms) :: _ =>
       match parseMap ms with
       | none => "bad-answer\t-"
       | some m =>
@@ -204,16 +445,29 @@ def judge (f : Function) (sp : String) (w : Nat) (res : List Sx) : String :=
             match search f sp w rep (nameWidths scal) with
             | some s => s!"invalid {why} {s}"
             | none => s!"invalid {why}"
-        s!"{verdict}\tpremise={premise} nt={nt} strict={strictS}"
+        -- the architectural oracle (machine-code cases): independent of falcon's idea of the stack register
+        let isa := match mc with
+          | none => none
+          | some i => isaWitness i.arch i.code i.x86d f (archWidth i.arch) rep
+        let isaS := match isa with | some t => t.str | none => "isa=-"
+        let verdict := match isa.bind (·.contra) with
+          | some c => if verdict = "valid" then c else s!"{verdict} {c}"
+          | none => verdict
+        s!"{verdict}\tpremise={premise} nt={nt} strict={strictS} {isaS}"
     | _ => "bad-answer\t-"
+
+def findX86d : List Sx → Option (List Sx)
+  | [] => none
+  | .list (.atom "x86d" :: ds) :: _ => some ds
+  | _ :: xs => findX86d xs
 
 def handle (line : String) : String :=
   match line.splitOn "\t" with
   | [req, ans] =>
     match Sx.parseAll req, Sx.parseAll ans with
-    | some (.atom kind :: .atom _arch :: rest), some axs =>
+    | some (.atom kind :: .atom arch :: rest), some axs =>
       match axs with
-      | .atom "nolift" :: _ => "?\tpremise=no nt=0 strict=-"
+      | .atom "nolift" :: _ => "?\tpremise=no nt=0 strict=- isa=-"
       | .list [.atom "sp", .atom sp, wb] :: more =>
         match wb.nat? with
         | none => "bad-answer\t-"
@@ -222,16 +476,16 @@ def handle (line : String) : String :=
             match rest with
             | [fx] =>
               match Fil.function? fx with
-              | some f => judge f sp w more
+              | some f => judge f sp w more none
               | none => "bad-request\t-"
             | _ => "bad-request\t-"
           else if kind = "mc" then
-            match more with
-            | fx :: res =>
-              match Fil.function? fx with
-              | some f => judge f sp w res
-              | none => "bad-answer\t-"
-            | _ => "bad-answer\t-"
+            match more, rest with
+            | fx :: res, [.atom hex] =>
+              match Fil.function? fx, hexBytes hex with
+              | some f, some code => judge f sp w res (some ⟨arch, code, findX86d res⟩)
+              | _, _ => "bad-answer\t-"
+            | _, _ => "bad-answer\t-"
           else "bad-request\t-"
       | _ => "bad-answer\t-"
     | _, _ => "bad-request\t-"
